@@ -126,6 +126,14 @@ func c08TwoCycleGen() func(emit func(*h1.Scenario)) {
 						sc.Cycles = [][]h1.Replica{mk(m1), mk(m2)}
 						sc.Note = fmt.Sprintf("two cycles: shard %d %s then %s", pos, shNames[classOf(&sc.Cycles[0][0].Shards[pos])], shNames[classOf(&sc.Cycles[1][0].Shards[pos])])
 						emit(sc)
+						// the same, with a reload between the cycles that changes the raw content but not the hash
+						// (only the external labels changed): a push of the second cycle carries the new content
+						if head == 0 && m2 >= 0 && m2 != h1.HashEqual {
+							sc2 := *sc
+							sc2.Raws = []string{"", h1.RawCfg + "# reloaded: external labels changed\n"}
+							sc2.Note += "; configuration reloaded in between (same hash, new raw content)"
+							emit(&sc2)
+						}
 					}
 				}
 			}
@@ -178,7 +186,13 @@ func c08Oracle(sc *h1.Scenario, o *h1.Obs) []Finding {
 						case isPost(r, "/api/v1/status/config"):
 							if pushAt < 0 {
 								pushAt = k
-								if r.Raw != h1.RawCfg {
+								wantRaw := h1.RawCfg
+								for k := 0; k <= ci && k < len(sc.Raws); k++ {
+									if sc.Raws[k] != "" {
+										wantRaw = sc.Raws[k]
+									}
+								}
+								if r.Raw != wantRaw {
 									fs = append(fs, Finding{Clause: "push-raw-config", Sig: "C08:push-content",
 										Detail: fmt.Sprintf("shard %d was pushed %q, expected the coordinator's raw configuration", si, r.Raw)})
 								}
